@@ -448,7 +448,7 @@ func init() {
 	harness.Register(&harness.Check{
 		ID:    "C01",
 		Level: "exploration",
-		Rule: "part gen: codec-class generator (sparse/huge/boundary ids, 0..4 sample types, 0..4 elements in every repeated field, extreme int64, empty/NUL/non-UTF8/long strings, partial units); part corpus: every repository testdata file that ParseData accepts (protobuf and legacy). part driver: codec-class profiles saved by the real driver with -proto and rendered with -raw and -traces, compared with the direct rendering. " +
+		Rule: "part gen: codec-class generator (sparse/huge/boundary ids, 0..4 sample types, 0..4 elements in every repeated field, extreme int64, empty/NUL/non-UTF8/long strings, partial units); part corpus: every repository testdata file that ParseData accepts (protobuf and legacy). part driver: codec-class profiles saved by the real driver with -proto: the reparsed output must carry the same values per (frames with every attribute incl. columns, labels) as the input (fake mapping for mapping-less profiles excepted), and -raw / -traces of it must equal the direct rendering. " +
 			"oracle per profile: independent wire decoder view == normalised in-memory view; ParseUncompressed/Parse/ParseData of the written bytes == original; gunzip(Write)==WriteUncompressed; byte fixpoint from the first re-serialisation; Copy equal, pointer-disjoint, mutation-isolated; inputs unmodified; the same object changed in place (mapping cleared/set, line re-pointed, labels removed/replaced, header cleared) and serialized again must round-trip according to its new contents. " +
 			"non-trivial = has at least one sample, location or function; distinct = distinct table-size signature (or file)",
 		Assumptions: []string{"normalisation N: labels with empty string value, and numeric value 0 without unit, are unrepresentable in proto3 and dropped", "NumUnit is absent or as long as NumLabel (documented contract)"},
